@@ -72,6 +72,7 @@ type Exec struct {
 	queries      int
 	tweaks       int
 	mapSites     int
+	stubRet      map[string][]Value
 	mapSite      int
 	rotations    []string
 	initPkg      *ssa.Package
@@ -635,6 +636,11 @@ func (x *Exec) callFunction(fn *ssa.Function, args []Value, bind []Value) (ret V
 	}
 	if fn.Synthetic == "package initializer" && (x.initPkg == nil || fn.Pkg != x.initPkg) {
 		return nil // other packages are initialised lazily on first access to their globals
+	}
+	if canned, ok := x.stubRet[name]; ok {
+		x.calllog = append(x.calllog, name+"("+x.renderArgs(args)+")")
+		x.stubsHit["stub:"+name] = true
+		return x.cannedResult(fn, canned)
 	}
 	if in, ok := x.eng.intrinsics[name]; ok {
 		r, handled := in(x, fn, args)
@@ -1366,4 +1372,73 @@ func (x *Exec) typeAssert(v *IfaceVal, i *ssa.TypeAssert) Value {
 		x.goPanicf("interface conversion: interface is %s, not %s", tn, i.AssertedType.String())
 	}
 	return res
+}
+
+func (x *Exec) renderArgs(args []Value) string {
+	var parts []string
+	for _, a := range args {
+		switch t := a.(type) {
+		case *StrVal:
+			if t.IsConcrete() {
+				parts = append(parts, t.Conc())
+			} else {
+				parts = append(parts, "<str>")
+			}
+		case *Term:
+			parts = append(parts, describe(t))
+		case *SliceVal:
+			// byte slices: render concrete content, else identity
+			conc := t.Len > 0
+			buf := make([]byte, 0, t.Len)
+			for i := 0; i < t.Len && conc; i++ {
+				b, ok := t.At(i).(*Term)
+				if !ok || !b.IsConst() || b.S.W != 8 {
+					conc = false
+					break
+				}
+				buf = append(buf, byte(b.Val))
+			}
+			if conc {
+				parts = append(parts, string(buf))
+			} else {
+				parts = append(parts, fmt.Sprintf("<slice len=%d>", t.Len))
+			}
+		default:
+			parts = append(parts, "_")
+		}
+	}
+	return strings.Join(parts, "|")
+}
+
+// cannedResult converts harness-supplied interface{} values into the callee's result shape
+func (x *Exec) cannedResult(fn *ssa.Function, canned []Value) Value {
+	res := fn.Signature.Results()
+	conv := func(i int) Value {
+		rt := res.At(i).Type()
+		if i >= len(canned) {
+			return zeroValue(rt)
+		}
+		iv, ok := canned[i].(*IfaceVal)
+		if !ok {
+			return canned[i]
+		}
+		if iv.T == nil {
+			return zeroValue(rt)
+		}
+		if types.IsInterface(rt) {
+			return iv
+		}
+		return iv.V
+	}
+	switch res.Len() {
+	case 0:
+		return nil
+	case 1:
+		return conv(0)
+	}
+	tv := make(TupleVal, res.Len())
+	for i := range tv {
+		tv[i] = conv(i)
+	}
+	return tv
 }
